@@ -120,6 +120,15 @@ def run(ctx):
             lb.append(tpl.replace("{{", "{").replace("}}", "}").replace("{}", a2, 1).replace("{}", b2, 1) + "\n")
             ms.append((tpl, a, a2, ("", ""), ""))
             la.append("!\n"), lb.append("!\n"), ms.append(("second-of-two", b, b2, ("", ""), la[-2]))
+        # line forms that carry TWO secrets of different kinds, one of them hash-shaped: the keyword pattern group has to claim the line before a catch-all does
+        for tpl, c1, c2 in (("set session-key outbound esp 256 cipher {} authenticator {}", "text", "md5"),
+                            ("snmp-server user ops admins v3 auth md5 {} priv aes 128 {}", "md5", "text"),
+                            ("set session-key inbound esp 256 cipher {} authenticator {}", "text", "juniper")):
+            a, b = mk(rng, c1), mk(rng, c2)
+            a2, b2 = renamed(rng, a, mp), renamed(rng, b, mp)
+            la.append(tpl.replace("{}", a, 1).replace("{}", b, 1) + "\n")
+            lb.append(tpl.replace("{}", a2, 1).replace("{}", b2, 1) + "\n")
+            ms.append((tpl, a if c1 == "text" else b, a2 if c1 == "text" else b2, ("", ""), ""))
         salt = rng.choice(["s", "Q", "", "xyz"])
         pairs.append((textgen.pipe(la, flags="pl", salt=salt), textgen.pipe(lb, flags="pl", salt=salt), ms))
     cases = [p[0] for p in pairs] + [p[1] for p in pairs]
